@@ -128,6 +128,7 @@ def run(ctx):
         crate, pre, entry, ptype = COPIES[name]
         ctx.guarded("R-C04-prop-accounting", prop_accounting, ctx, ctx.progs[crate], name, pre)
         ctx.guarded("R-C04-prop-accounting", prop_len_accounting, ctx, ctx.progs[crate], name, pre)
+        ctx.guarded("R-C04-props-none", props_none_byte, ctx, ctx.progs[crate], name, pre)
 
 
 # ------------------------------------------------------------------------------------------
@@ -804,3 +805,61 @@ def len_strings(ctx, prog, name, pre):
         else:
             ctx.ok(rule, b.id, "%s %s: every string len() is added together with a 2-byte prefix" % (name, b.id[len(pre):]), site=b.fn_loc())
     ctx.floor(rule, "len() bodies that count strings in %s" % name, nfn, 3)
+
+
+# ------------------------------------------------------------------------------------------
+# R-C04-props-none: the "no properties" byte
+
+def props_none_byte(ctx, prog, name, pre):
+    """An MQTT 5 packet without properties still carries a one-byte property length of 0 whenever its writer emits
+    `write_remaining_length(buffer, 0)` on the None branch.  The packet's len() must then count, on its None branch,
+    exactly one byte more than the fixed bytes its Some branch counts besides the properties themselves."""
+    rule = "R-C04-props-none"
+    n = 0
+    for lb in sorted(prog.A.values(), key=lambda b: b.id):
+        if not lb.id.startswith(pre) or lb.name != "len" or lb.kind not in ("Fn", "AssocFn"):
+            continue
+        wb = prog.A.get(lb.id[:-3] + "write")
+        if wb is None:
+            continue
+        # the Option<..Properties> switch of len()
+        sw = None
+        for s_ in discr_switches(lb, r"option::Option$"):
+            ty = lb.ty(s_[4].get("ty")) if s_[4] and s_[4].get("ty") is not None else ""
+            src = flatten_src(place_provenance(lb, s_[4])) if s_[4] else []
+            named = any("properties" in ".".join(str(y) for y in (getattr(x, "fields", None) or [])) for x in src) or any(x.kind == "param" and "Properties" in lb.local_ty(x.l) for x in src)
+            if named and variant_target(s_, "Some") is not None and variant_target(s_, "None") is not None:
+                sw = s_
+        if sw is None:
+            continue
+        # does write() emit an explicit zero property length when there are none?
+        zero_len = False
+        for bb, t in wb.calls():
+            if not wb.is_cleanup(bb) and callee_path(t).endswith("write_remaining_length") and (op_const(t["args"][1]) or {}).get("v") == 0:
+                zero_len = True
+        if not zero_len:
+            continue
+        dom = dominators(lb)
+
+        def arm_consts(tgt, other):
+            region = {b for b in reachable(lb, (tgt,)) if tgt in dom.get(b, ()) and b not in reachable(lb, (other,))}
+            total = 0
+            for b in region:
+                for st in lb.blocks[b]["s"]:
+                    if "lhs" in st and st["rv"]["k"] == "bin" and st["rv"]["op"] in ("Add", "AddWithOverflow"):
+                        for side in ("a", "b"):
+                            k = op_const(st["rv"][side])
+                            if k is not None and "v" in k:
+                                total += k["v"]
+            return total
+        s_t, n_t = variant_target(sw, "Some"), variant_target(sw, "None")
+        cs, cn = arm_consts(s_t, n_t), arm_consts(n_t, s_t)
+        n += 1
+        label = "%s %s" % (name, lb.id[len(pre):])
+        if cn == cs + 1:
+            ctx.ok(rule, lb.id, "%s: the None branch counts the zero property-length byte write() emits (%d vs %d fixed bytes)" % (label, cn, cs), site=lb.fn_loc())
+        else:
+            ctx.violation(rule, lb.id, "zero property-length byte not counted",
+                          "%s: write() emits a one-byte property length of 0 when there are no properties, but len() counts %d fixed byte(s) on the None branch and %d on the Some branch (expected one more on None): the announced remaining length is one short, the frame cannot be decoded and the stream is left out of step"
+                          % (label, cn, cs), site=lb.fn_loc())
+    ctx.floor(rule, "packet len() functions with a properties branch and an explicit zero-length write in %s" % name, n, 6)
